@@ -143,6 +143,15 @@ type Guard struct {
 const guardPad = 16
 const guardSpare = 80 // spare capacity behind every slice: room for an in-place append of a key or signature
 
+// chunkPool recycles released chunks (LIFO, per size): a caller that decodes
+// successive inputs into the same buffers hands the library the SAME addresses
+// with DIFFERENT contents from one call to the next. A library that keeps a
+// caller's slice beyond the call (as a cache key, say) then compares the
+// buffer with itself. One release in four really unmaps instead, so that a
+// retained pointer is also caught reading memory that is gone.
+var chunkPool = map[int][][]byte{}
+var chunkReleases uint64
+
 func (g *Guard) alloc(n int) []byte {
 	n = (n + 7) &^ 7
 	if g.cur == nil || g.off+n > len(g.cur) {
@@ -150,9 +159,16 @@ func (g *Guard) alloc(n int) []byte {
 		for size < n {
 			size *= 2
 		}
-		m, err := syscall.Mmap(-1, 0, size, syscall.PROT_READ|syscall.PROT_WRITE, syscall.MAP_ANON|syscall.MAP_PRIVATE)
-		if err != nil {
-			infra("mmap: %v", err)
+		var m []byte
+		if l := chunkPool[size]; len(l) > 0 && !noChunkReuse {
+			m = l[len(l)-1]
+			chunkPool[size] = l[:len(l)-1]
+		} else {
+			var err error
+			m, err = syscall.Mmap(-1, 0, size, syscall.PROT_READ|syscall.PROT_WRITE, syscall.MAP_ANON|syscall.MAP_PRIVATE)
+			if err != nil {
+				infra("mmap: %v", err)
+			}
 		}
 		g.chunks = append(g.chunks, m)
 		g.cur, g.off = m, 0
@@ -236,7 +252,17 @@ func (g *Guard) Contains(addr uintptr) bool {
 // used afterwards.
 func (g *Guard) Release() {
 	for _, c := range g.chunks {
-		syscall.Munmap(c)
+		chunkReleases++
+		if noChunkReuse || chunkReleases%4 == 0 || len(chunkPool[len(c)]) >= 64 {
+			syscall.Munmap(c)
+			continue
+		}
+		syscall.Mprotect(c, syscall.PROT_READ|syscall.PROT_WRITE)
+		chunkPool[len(c)] = append(chunkPool[len(c)], c)
 	}
 	g.chunks, g.cur, g.arrs = nil, nil, nil
 }
+
+// noChunkReuse: the concurrency engine shares one Prepared between clients and
+// keeps several alive at once; recycling is for the sequential engines.
+var noChunkReuse bool
